@@ -173,3 +173,21 @@ def result_is_callers(fn, data, hits) -> bool:
     finally:
         if hits and hits[-1] is _POISON:
             hits.pop()
+
+
+def copies_keep_context(n: Node):
+    """Ways a caller hands a result node on - shallow copy, deep copy, pickle round trip (every protocol), alone and inside a list of findings.
+    Every copy must still say which text it replaced (`original`) and be equal to the node.  Returns the name of the first way that fails."""
+    import copy
+    import pickle
+
+    want = (tup(n), n.original)
+    ways = [("copy.copy", lambda: copy.copy(n)), ("copy.deepcopy", lambda: copy.deepcopy(n)), ("deepcopy([node])", lambda: copy.deepcopy([n])[0])]
+    for proto in range(2, pickle.HIGHEST_PROTOCOL + 1):
+        ways.append((f"pickle protocol {proto}", lambda proto=proto: pickle.loads(pickle.dumps(n, protocol=proto))))
+        ways.append((f"pickle([node]) protocol {proto}", lambda proto=proto: pickle.loads(pickle.dumps([n], protocol=proto))[0]))
+    for name, fn in ways:
+        c = fn()
+        if (tup(c), c.original) != want:
+            return name
+    return None
